@@ -1017,12 +1017,15 @@ def main(tier):
         "disagreements_checked": n_diff_spec + n_model_mismatch + oracle_bad + n_order + xstats.get("diff_spec", 0),
         "spec_vs_cpython_mismatches": oracle_bad + xstats.get("oracle_bad", 0),
         "second_part": dict(xstats, rule="analysis options (include_stdlib / include_third_party / follow_relative / exclude pattern) against "
-                            "Deps/ImportsOpt.v; conditions mentioning TYPE_CHECKING in and/or/==/is/not at if / elif / else against Deps/TcGuard.v and "
-                            "python3; namespace packages (also through AnalyzeProject with the options of `pyscn check`); import root below the "
+                            "Deps/ImportsOpt.v; conditions mentioning TYPE_CHECKING in and/or/==/is/not/parentheses with the literals True/False and unknown "
+                            "names, the statement in the body, the else or a later elif branch, against Deps/TcGuard.v (runtimeValue) and "
+                            "python3; namespace packages with the default options and with those of `pyscn check` (also through AnalyzeProject): "
+                            "the same graph, Python's; import root below the "
                             "project root with each of the five marker files; wildcard re-exports; modules named like stdlib modules; m.py next "
                             "to m/; files that do not parse; projects without refactoring candidates; on every project of both parts the "
                             "derived outputs (root/leaf modules, direct/transitive dependencies, dependents, risk level, coupling averages, "
-                            "main-sequence deviation, refactoring candidates) decided on the reported graph"),
+                            "main-sequence deviation, refactoring candidates) decided on the reported graph. Repaired and now plain violations: F63 "
+                            "(guards), F62 (namespace packages without include_third_party), F65 (m.py next to m/)"),
     })
     ck.trusted += ["Coq 8.16.1 kernel, vm_compute for model/spec evaluation",
                    "translator /verif/translator gen_imports.go (stdlib table, analysis option defaults)",
